@@ -3,7 +3,7 @@ from pv import common, gen, lsrun
 
 PID = "C03"
 RULE = ("seeded DCOPs (2-6 vars, domains 2-4, binary and ternary constraints, unary constraints, variable costs, "
-        "min and max, palettes ties/distinct/float/neg/bigbase (1e12 + 0..9); a quarter are tie-rich 3-4 variable trees with costs in {0,1,2} or decimal fractions {0, .1, .2, .3, .4, .7} run with mgm2) run with mgm (break_mode lexic/random) and mgm2 "
+        "min and max, palettes ties/distinct/float/neg/bigbase (1e12 + 0..9)/bigmix (small costs and avoidable 1e12 penalties); a quarter are tie-rich 3-4 variable trees with costs in {0,1,2} or decimal fractions {0, .1, .2, .3, .4, .7} run mostly with mgm2) run with mgm (break_mode lexic/random) and mgm2 "
         "(threshold 0.2/0.5/0.9, favor unilateral/no/coordinated), stop_cycle 3..12, several random FIFO "
         "schedules each; monitor compares logical per-component cycle cuts A_k / A_k+1 (cost incl. variable "
         "costs, movers sharing a constraint); non-trivial = >=1 value change after the initial selection and "
@@ -11,7 +11,7 @@ RULE = ("seeded DCOPs (2-6 vars, domains 2-4, binary and ternary constraints, un
 
 
 def make_run(rng, seed, i, s, tier, tie_rich=False):
-    algo = rng.choice(["mgm", "mgm2"]) if not tie_rich else "mgm2"
+    algo = rng.choice(["mgm", "mgm2"]) if not tie_rich else rng.choice(["mgm2", "mgm2", "mgm"])
     if algo == "mgm":
         params = {"stop_cycle": rng.randint(3, 12), "break_mode": rng.choice(["lexic", "random"])}
     else:
@@ -39,7 +39,7 @@ def make_case(rng, tier):
                 c["scope"] = [ren[n] for n in c["scope"]]
         return case
     return gen.gen_case(rng, min_vars=2, max_vars=6, max_dom=4 if rng.random() < 0.3 else 3,
-                        palettes=("ties", "distinct", "float", "neg", "bigbase"), max_space=2000, initial=True,
+                        palettes=("ties", "distinct", "float", "neg", "bigbase", "bigmix"), max_space=2000, initial=True,
                         shapes=("chain", "star", "tree", "cycle", "clique", "random", "components", "isolated"))
 
 
@@ -140,9 +140,16 @@ def analyse(case, algo, run):
                                 continue
                             if (k, s_, d_) in run["go"] and (k, d_, s_) in run["go"]:
                                 continue
-                            third = [z for z in (nb[s_] | nb[d_]) - {s_, d_}
-                                     if (k, z) in run["gains"] and gen.close(run["gains"][(k, z)], g, 1e-9)]
-                            if third:
+                            # the limitation only covers refusals that follow the protocol's own rule: a partner
+                            # answers NO-GO when one of ITS non-partner neighbours announced the same gain and has a
+                            # lexically smaller name; a refusal without such a neighbour is an ordinary violation
+                            justified = []
+                            for x, y in ((s_, d_), (d_, s_)):
+                                if (k, x, y) in run["go"]:
+                                    continue  # x said GO
+                                tied = [z for z in nb[x] - {y} if (k, z) in run["gains"] and gen.close(run["gains"][(k, z)], g, 1e-9)]
+                                justified.append(bool(tied) and min(tied) < x)
+                            if justified and all(justified):
                                 key = "mgm2:committed-pair-gain-tie-with-neighbour"
                                 break
                     p4.append((key, "%s %s: no variable of %s moved in cycle %d but %s=%r would change cost %r -> %r" % (
